@@ -146,7 +146,10 @@ class Operand(ABC):
 
         if self.value.is_numeric() and not old_value.is_explicit_extended() and \
                 (self.value.is_direct() or old_value.is_explicit_direct()):
-            return DirectOperand(self.operand_string, self.instruction, DirectNumericValue(self.value.int))
+            return DirectOperand(
+                self.operand_string, self.instruction,
+                DirectNumericValue(-self.value.int if self.value.is_negative() else self.value.int)
+            )
 
         if self.value.is_address() and old_value.is_explicit_direct():
             return DirectOperand(self.operand_string, self.instruction, value=self.value)
